@@ -328,11 +328,20 @@ fn census_item(src: &str, a: &Args, ctx: &Ctx, state: &mut CensusState) -> Resul
             let w = wrath_header::ProofSeed::new().seed();
             let p = wow_srp::pin::get_pin_grid_seed();
             let v2 = vanilla_header::ProofSeed::default().seed();
-            Ok(format!("{}/{}/{}/{}/{}", hex(&v.to_le_bytes()), hex(&t.to_le_bytes()), hex(&w.to_le_bytes()), hex(&p.to_le_bytes()), hex(&v2.to_le_bytes())))
+            let t2 = tbc_header::ProofSeed::default().seed();
+            let w2 = wrath_header::ProofSeed::default().seed();
+            Ok(format!(
+                "{}/{}/{}/{}/{}/{}/{}",
+                hex(&v.to_le_bytes()), hex(&t.to_le_bytes()), hex(&w.to_le_bytes()), hex(&p.to_le_bytes()), hex(&v2.to_le_bytes()), hex(&t2.to_le_bytes()), hex(&w2.to_le_bytes())
+            ))
         }
         "vseed" => Ok(hex(&vanilla_header::ProofSeed::new().seed().to_le_bytes())),
         "tseed" => Ok(hex(&tbc_header::ProofSeed::new().seed().to_le_bytes())),
         "wseed" => Ok(hex(&wrath_header::ProofSeed::new().seed().to_le_bytes())),
+        // the same seeds obtained through the Default trait (the constructor the crate itself uses to draw them)
+        "vseed_d" => Ok(hex(&<vanilla_header::ProofSeed as Default>::default().seed().to_le_bytes())),
+        "tseed_d" => Ok(hex(&<tbc_header::ProofSeed as Default>::default().seed().to_le_bytes())),
+        "wseed_d" => Ok(hex(&<wrath_header::ProofSeed as Default>::default().seed().to_le_bytes())),
         "integrity_salt" => Ok(hex(&wow_srp::integrity::get_salt_value())),
         "pin_salt" => Ok(hex(&wow_srp::pin::get_pin_salt())),
         "pin_seed" => Ok(hex(&wow_srp::pin::get_pin_grid_seed().to_le_bytes())),
